@@ -10,7 +10,7 @@ MODULE = {
             "yields": "Str", "returns": "Seq[Str]",
             # raises nothing: no IndexError from url[i] / string[s - 1], no ValueError from the two-target unpacking
             "ensures": [],
-            "loops": {2: {"invariant": ["0 <= i and i <= stop", "stop == len(url) - 1"], "decreases": "i"}},
+            "loops": {2: {"invariant": ["i <= stop", "stop == len(url) - 1"], "decreases": "i"}},
         },
     },
 }
